@@ -88,6 +88,7 @@ fn main() {
                 "exec" => vmstreams::exec(&mut r, count, thorough, &mut out),
                 "feemult" => smallstreams::feemult(&mut r, count, thorough, &mut out),
                 "confirm" => smallstreams::confirm(&mut r, count, thorough, &mut out),
+                "merkle" => smallstreams::merkle(&mut r, count, thorough, &mut out),
                 "apply" | "seal" | "chain" | "mint" | "hostile" => {
                     let em = match stream {
                         "apply" => statestream::Emphasis { mutate: 300, pool_ops: 6, stake_ops: 8, mint_ops: 8, batches: 0, blocks: 2, chain_ops: false },
